@@ -70,7 +70,7 @@ def const_term(c):
     if isinstance(c, (int, np.integer)):
         return z3.IntVal(int(c))
     if isinstance(c, (float, np.floating)):
-        return z3.Int("lit_" + repr(float(c)))
+        return symx.lift(float(c))
     if isinstance(c, (complex, np.complexfloating)):
         return z3.Int("lit_" + repr(complex(c)))
     if isinstance(c, str):
@@ -107,8 +107,7 @@ def term(e, ctx):
             r = r * as_num(term(c, ctx))
         return r
     if n == "Quotient":
-        return symx.uf("truediv", INT, INT, INT)(as_num(term(e.numerator, ctx)),
-                                                 as_num(term(e.denominator, ctx)))
+        return symx.int_truediv(as_num(term(e.numerator, ctx)), as_num(term(e.denominator, ctx)))
     if n == "FloorDiv":
         return symx._py_floordiv(as_num(term(e.numerator, ctx)),
                                  as_num(term(e.denominator, ctx)))
@@ -116,8 +115,7 @@ def term(e, ctx):
         return symx._py_mod(as_num(term(e.numerator, ctx)),
                             as_num(term(e.denominator, ctx)))
     if n == "Power":
-        return symx.uf("pow", INT, INT, INT)(as_num(term(e.base, ctx)),
-                                             as_num(term(e.exponent, ctx)))
+        return symx.int_pow(as_num(term(e.base, ctx)), as_num(term(e.exponent, ctx)))
     if n == "Comparison":
         return _CMP[e.operator](as_num(term(e.left, ctx)), as_num(term(e.right, ctx)))
     if n == "LogicalNot":
